@@ -29,6 +29,7 @@ from . import common, c07, c11
 
 QUEUE = 'slimta.queue.Queue'
 STORAGE = 'slimta.queue.QueueStorage'
+RELAY = 'slimta.relay.Relay'
 TRANS = 'slimta.relay.TransientRelayError'
 PERM = 'slimta.relay.PermanentRelayError'
 
@@ -137,8 +138,52 @@ def run(e: Engine, rep: Report):
              '_add_queued refuse the re-queue: the message is never '
              'attempted again)')
     _c12.q12(e, rep, 'R1.22')
+    rep.rule('R1.23', 'Relay._attempt hands attempt() the very envelope the '
+             'queue gave it (relay policies change it in place): the '
+             'per-recipient results are keyed by the recipients of that '
+             'object, which is where the queue looks them up')
+    r123(e, rep)
     rep.floor('R1.2', 5, 'removal sites')
     rep.floor('R1.5', 3, 'backend uses of the index argument')
+
+
+# ------------------------------------------------------------------- R1.23
+def r123(e: Engine, rep: Report):
+    n = 0
+    for cq in sorted(set([RELAY] + list(e.p.subclasses(RELAY)))):
+        c = e.p.classes.get(cq)
+        m = c.methods.get('_attempt') if c else None
+        if m is None:
+            continue
+        n += 1
+        rep.functions.add(m.qname)
+        own = [p for p in m.params if p not in ('self', 'cls')]
+        envp = own[0] if own else None
+        calls = [x for x in walk_own(m.node) if isinstance(x, ast.Call) and
+                 isinstance(x.func, ast.Attribute) and
+                 x.func.attr == 'attempt' and
+                 isinstance(x.func.value, ast.Name) and
+                 x.func.value.id == 'self']
+        rep.evaluations += 1
+        rebound = [x for x in walk_own(m.node) if isinstance(x, ast.Name) and
+                   x.id == envp and isinstance(x.ctx, (ast.Store, ast.Del))]
+        passed = bool(calls) and all(
+            c2.args and isinstance(c2.args[0], ast.Name) and
+            c2.args[0].id == envp for c2 in calls)
+        rep.check(envp is not None and not rebound and passed, 'R1.23',
+                  m.qname, 'attempt() gets the envelope _attempt was given',
+                  '%s hands attempt() another object than the envelope the '
+                  'queue holds (`%s` is re-bound / not passed on): relay '
+                  'policies that rewrite recipients then act on the copy '
+                  'only, the per-recipient results name recipients the '
+                  "queue's envelope does not have, "
+                  'envelope.recipients.index() raises in '
+                  '_handle_partial_relay and the attempt dies before any '
+                  'disposition' % (m.qname, envp),
+                  loc=m.loc(rebound[0]) if rebound else m.loc(),
+                  reason='parameter passed on, never re-bound')
+    if n < 1:
+        rep.error('anchor vanished: Relay._attempt')
 
 
 # -------------------------------------------------------------------- R1.1
